@@ -243,6 +243,29 @@ func c17ProcessPart(run *report.Run, tier string) {
 				run.Nontrivial("cli-multi-pattern|" + strings.Join(combo, " "))
 			}
 		}
+		// (a3) strings that are no pattern at all (empty name after the colon, text after the
+		// recursive wildcard) are rejected - alone and when every argument is one of them; they never
+		// select anything, let alone everything
+		bad := []string{"//p:", "//p/...x", "//p/...:", "//a/b:", "//p2/sub/...:", "//...:", "//x/a/...b"}
+		for k := 0; k < tierN(tier, 8, 40); k++ {
+			var combo []string
+			for len(combo) < 1+r.Intn(3) {
+				combo = append(combo, bad[r.Intn(len(bad))])
+			}
+			res := m.Run(append([]string{"list"}, combo...), grog.RunOpts{Build: "q", Timeout: 30 * time.Second})
+			run.Eval(1)
+			run.Count("cli_ill_formed_pattern_queries", 1)
+			got := lines(res.Stdout)
+			replay := map[string]any{"arguments": combo, "exit": res.Exit, "printed": got, "output": tailS(res.Stdout+res.Stderr, 400)}
+			switch {
+			case res.Crashed() != "":
+				run.Violation("cli-crash cmd=list", "grog list crashed on "+strings.Join(combo, " ")+": "+res.Crashed(), replay)
+			case res.Exit == 0 || len(got) > 0:
+				run.Violation("cli-ill-formed-pattern-accepted", fmt.Sprintf("grog list %v exited %d and printed %d labels; none of the arguments is a pattern", combo, res.Exit, len(got)), replay)
+			default:
+				run.Nontrivial("cli-ill-formed|" + strings.Join(combo, " "))
+			}
+		}
 		// (b) labels written in BUILD files in every documented form resolve to the intended node:
 		// `grog deps` of the dependant (given once canonically, once in shorthand / relative form)
 		byFrom := map[string][]edge{}
